@@ -113,23 +113,45 @@ class Real:
 
 
 # ------------------------------------------------------------------------------------------------------------------
-# known findings: global file first (common.Result.fail), then the proposals that travel with this check until the
-# integrator merges them (corpus/C13/proposed_findings.json — same schema, same matching function)
-def local_findings():
-    try:
-        return json.load(open(os.path.join(VERIF, 'corpus', 'C13', 'proposed_findings.json')))['findings']
-    except Exception:
-        return []
+# findings of this property.  Both are REPAIRED in /repo; status "fixed" suppresses nothing: a failure inside the class of a
+# fixed finding is a regression and always a VIOLATION, also while /verif/known_findings.json still lists the entry as
+# "known" (the integrator merges these proposals; corpus/C13/proposed_findings.json holds the same entries).
+# `cls` in the replay is computed IN LEAN by FpSpec.oracle (gapClass / f2iOddClass).
+PROPOSED_FINDINGS = [
+    {"id": "C13-fpadd-exponent-gap-ge-32", "property": "C13", "status": "fixed", "fixed_by": "f8136d7",
+     "anchor": "py4hw/logic/arithmetic_fp.py:141",
+     "class_expr": "r.get('block') == 'add' and r.get('cls') == 'fpadd-exponent-gap-ge-32'",
+     "witness": {"block": "add", "params": [], "inputs": [1333788672, 1069547520], "r_before_fix": 1344274432, "r": 1333788672},
+     "what": "fixed: property=C13 f8136d7 FPAdder_SP: ediff was a 5-bit wire, so the alignment shift of the smaller operand wrapped "
+             "when the exponent gap was >= 32 (2**32 + 1.5 gave 1.0737e10, expected 4294967296.0)"},
+    {"id": "C13-fptoint-plost-odd-integer", "property": "C13", "status": "fixed", "fixed_by": "87c4dcb",
+     "anchor": "py4hw/logic/arithmetic_fp.py:273",
+     "class_expr": "r.get('block') == 'f2i' and r.get('cls') == 'f2i-plost-odd-integer'",
+     "witness": {"block": "f2i", "params": [], "inputs": [1065353216], "out_before_fix": [1, 1, 0, 0], "out": [1, 0, 0, 0]},
+     "what": "fixed: property=C13 87c4dcb FPtoInt_SP: p_lost tested hw_range(shifted, 32, 0), which included bit 32 = the least "
+             "significant INTEGER bit, so every odd integral value (1.0, 3.0, -1.0, ...) raised precision-lost although "
+             "truncation discarded nothing"},
+]
 
 
 def report_fail(res, what, replay):
+    """res.fail with PROPOSED_FINDINGS consulted first (they are authoritative for the ids they contain)"""
     import common
-    merged = {k.get('id') for k in common.load_known()}
-    for k in local_findings():
-        if k.get('id') not in merged and k.get('status') == 'known' and common._matches(k, what, replay):
+    mine = {k['id'] for k in PROPOSED_FINDINGS}
+    for k in PROPOSED_FINDINGS:
+        if k['status'] == 'fixed' and common._matches(k, what, replay):
+            res.failures.append({'what': what + f"  [regression of {k['id']}, fixed by /repo commit {k['fixed_by']}]", 'replay': replay})
+            return
+    for k in PROPOSED_FINDINGS:
+        if k['status'] == 'known' and common._matches(k, what, replay):
             res.known_hits.append((k, what))
             return
-    res.fail(what, replay)
+    # entries of the global file with one of OUR ids are superseded by PROPOSED_FINDINGS
+    for k in common.load_known():
+        if k.get('property') == res.prop and k.get('status') == 'known' and k.get('id') not in mine and common._matches(k, what, replay):
+            res.known_hits.append((k, what))
+            return
+    res.failures.append({'what': what, 'replay': replay})
 
 
 def describe(blk, x):
@@ -571,8 +593,8 @@ def main(res, tier, rng, replay):
         'value function: a normal encoding x denotes sval(x) * 2^-149 (C13.decode_normal ties FpSpec.sval to Helper.IEEE.decode IEEE.single)',
         'inputs of the blocks are 32-bit wire values (C06); operands outside "finite normal" (zero, subnormal, inf, nan) are outside the '
         'property: compared model-vs-real only',
-        'FPAdder_SP full statement is FALSE of the code for exponent gaps >= 32 (known finding, theorem in _partial form)',
-        'FPtoInt_SP p_lost full statement is FALSE of the code for odd integral values (known finding, theorem in _partial form)',
+        'the two former findings (adder exponent gap >= 32, FPtoInt p_lost on odd integers) are repaired in /repo (f8136d7, 87c4dcb): '
+        'their classes are still computed by the oracle and a failure inside them is reported as a regression (VIOLATION)',
         'FixedPointtoFP_SP is not named by the property text; it is modelled, tied to the real block and checked against the same '
         'truncation spec under the format reading value = a * 2^(f[1] + 1 - width)',
     ]
@@ -588,13 +610,14 @@ PROPS = [
     # (2) conversions
     'C13.i2f_core', 'C13.inttofp_eq', 'C13.inttofp_spec', 'C13.inttofp_oracle',
     'C13.fptoint_eq', 'C13.shift_view_right', 'C13.shift_view_left', 'C13.fptoint_small', 'C13.fptoint_mid', 'C13.fptoint_big',
-    'C13.fptoint_spec', 'C13.fptoint_plost_partial', 'C13.fptoint_plost_counterexample', 'C13.fptoint_oracle',
+    'C13.fptoint_spec', 'C13.fptoint_oracle',
     # (3) multiplier
     'C13.fpmul_eq', 'C13.fpmul_ulp', 'C13.fpmul_comm',
     # (4) adder
-    'C13.fpadd_gap32_counterexample', 'C13.fpadd_swap', 'C13.fpaddCore_eq', 'C13.fpadd_datapath', 'C13.fpadd_comm_fields',
+    'C13.fpadd_swap', 'C13.fpaddCore_eq', 'C13.fpadd_datapath', 'C13.fpadd_datapath_far', 'C13.add_exact', 'C13.norm_mant',
+    'C13.norm_exp', 'C13.norm_value', 'C13.fpaddCore_ulp', 'C13.fpadd_sign_ulp', 'C13.fpadd_sign_ulp_iff', 'C13.fpadd_comm_fields',
     'C13.fpadd_comm',
 ]
 
 if __name__ == '__main__':
-    main_wrapper('C13', main, level='partial')
+    main_wrapper('C13', main, level='proof')
